@@ -292,6 +292,19 @@ A_RenameGene(C, old, new) ==
                                                       ELSE IF x = old THEN 0 ELSE C.note[x]]]
        IN Ok(C1)
 
+\* a whole rename dictionary, processed entry by entry (a later entry sees the genes as the earlier ones left
+\* them: two keys mapping to one NEW id rename the first gene and merge the second into it).  Only
+\* dictionaries whose values are not keys are in scope ("undefined if a value matches a different key")
+RECURSIVE RenameFold(_, _)
+RenameFold(C, pairs) ==
+  IF pairs = <<>> THEN C
+  ELSE LET r == A_RenameGene(C, Head(pairs).g, Head(pairs).new) IN
+       RenameFold(IF r.raises = "none" THEN r.c ELSE C, Tail(pairs))
+A_RenameGenes(C, pairs) ==
+  LET keys == {pairs[i].g : i \in 1..Len(pairs)} vals == {pairs[i].new : i \in 1..Len(pairs)} IN
+  IF keys \cap vals # {} \/ Cardinality(keys) # Len(pairs) \/ pairs[1].g \notin C.genes THEN FailLoose(C, "skip")
+  ELSE Ok(RenameFold(C, pairs))
+
 \* reaction.id = new / metabolite.id = new
 SwapKey(f, old, new, dflt) == [x \in DOMAIN f |-> IF x = new THEN f[old] ELSE IF x = old THEN dflt ELSE f[x]]
 A_RenameReaction(C, r, new) ==
@@ -303,8 +316,8 @@ A_RenameReaction(C, r, new) ==
                     !.objc = SwapKey(C.objc, r, new, 0), !.sbo = SwapKey(C.sbo, r, new, "none"),
                     !.ann = SwapKey(C.ann, r, new, 0), !.note = SwapKey(C.note, r, new, 0),
                     !.member = [g \in GrpU |-> IF r \in C.member[g] THEN (C.member[g] \ {r}) \cup {new} ELSE C.member[g]]])
-A_RenameMetabolite(C, m, new) ==
-  IF m \notin C.mets \/ m = new THEN FailLoose(C, "skip")
+A_RenameMetabolite(C, m, new) ==     \* (compartments are tied to the ids in this model of the universe)
+  IF m \notin C.mets \/ m = new \/ CompOf(m) # CompOf(new) THEN FailLoose(C, "skip")
   ELSE IF new \in C.mets THEN FailAtomic(C, "ValueError")
   ELSE Ok([C EXCEPT !.mets = (@ \ {m}) \cup {new},
                     !.S = [r \in RxU |-> SwapKey(C.S[r], m, new, 0)],
@@ -398,7 +411,7 @@ ContentOp(op, C) ==
     [] op.a = "GeneKnockOut"       -> A_GeneKnockOut(C, op.g)
     [] op.a = "KnockOutModelGenes" -> A_KnockOutModelGenes(C, op.gs)
     [] op.a = "RemoveGenes"        -> A_RemoveGenes(C, op.gs, op.rr)
-    [] op.a = "RenameGene"         -> A_RenameGene(C, op.g, op.new)
+    [] op.a = "RenameGene"         -> A_RenameGenes(C, <<[g |-> op.g, new |-> op.new]>> \o op.more)
     [] op.a = "RenameReaction"     -> A_RenameReaction(C, op.r, op.new)
     [] op.a = "RenameMetabolite"   -> A_RenameMetabolite(C, op.met, op.new)
     [] op.a = "SetObjective"       -> A_SetObjective(C, op.d)
@@ -416,6 +429,9 @@ ContentOp(op, C) ==
     [] op.a = "RoundTrip"          -> A_RoundTrip(C, op.fmt)
     [] op.a = "GetMedium"          -> IF HasExt(C) THEN Ok(C) ELSE FailLoose(C, "skip")   \* which reactions are exchanges
                                                                       \* is a naming heuristic otherwise
+    \* an edit of a reaction object that was removed from the model (detached): the model's content does not
+    \* change now; if the removal is undone later by a context exit the object comes back as it then is
+    [] op.a = "DetachedSetBounds"  -> IF op.r \in C.rxns \/ op.lo > op.hi THEN FailLoose(C, "skip") ELSE Ok(C)
     [] op.a \in {"Analyze", "Init"} -> Ok(C)     \* stuttering steps on the content
     [] OTHER                       -> FailLoose(C, "unknown-op")
 
@@ -424,9 +440,9 @@ ContentActions == {"AddMetabolites", "RemoveMetabolites", "AddReactions", "Remov
                    "SetBounds", "RxnKnockOut", "SetRule", "GeneKnockOut", "KnockOutModelGenes", "RemoveGenes",
                    "RenameGene", "RenameReaction", "RenameMetabolite", "SetObjective", "SetObjCoef", "SetDirection",
                    "SetMedium", "SwitchSolver", "AddUserCons", "AddUserVar", "RemoveUserCons", "RemoveUserVar",
-                   "AddGroup", "RemoveGroup", "Annotate", "Analyze", "RoundTrip", "GetMedium", "Init"}
+                   "AddGroup", "RemoveGroup", "Annotate", "Analyze", "RoundTrip", "GetMedium", "Init", "DetachedSetBounds"}
 \* operations that the documentation does NOT declare reversible inside `with model:`
-NotContextAware == {"AddGroup", "RemoveGroup", "Annotate", "RenameReaction", "RenameMetabolite"}
+NotContextAware == {"AddGroup", "RemoveGroup", "Annotate", "RenameReaction", "RenameMetabolite", "DetachedSetBounds"}
 
 Apply(op, St) ==
   LET s == op.s IN
